@@ -1,2 +1,511 @@
-// Package c10 is the check for property C10 (see DESIGN.md section 3).
+// Package c10: workspace dependency resolution is exact and ambiguity is an error.
+//
+// Bounded-exhaustive exploration: every module-level import digraph on n <= 3 (thorough: 4) nodes x
+// every way of providing each node (local unnamed / local named / registry commit pinned in buf.lock /
+// local AND pinned) x {buf.work.yaml + v1 modules, v2 buf.yaml} x every target choice (workspace,
+// each module directory, a proto-file reference, --path) is materialised as a memory bucket plus an
+// in-process registry and opened through bufworkspace.GetWorkspaceForBucket. The observations
+// (module set, Module.ModuleDeps/IsDirect, ModuleSetToDAG, the built image, the ls-files file list,
+// and the CLI commands `dep graph`, `ls-files --include-imports`, `build` on scratch directories)
+// are compared with a small reference model (refgraph, expect.go) computed from the digraph alone.
+// Ambiguity plants (a path in two modules, an import nobody provides, two commits of one name) are
+// enumerated over the same digraphs.
 package c10
+
+import (
+	"context"
+	"fmt"
+	"reflect"
+	"sync/atomic"
+	"time"
+
+	"github.com/bufbuild/bufverif/internal/enum"
+	"github.com/bufbuild/bufverif/internal/evid"
+)
+
+func init() {
+	evid.Register(&evid.Check{ID: "C10", Level: "exploration", Run: run, QuickBudget: 150 * time.Second, ThoroughBudget: 20 * time.Minute})
+}
+
+// Case is what gets written out for samples and violations.
+type Case struct {
+	Spec     Spec   `json:"spec"`
+	Target   Target `json:"target"`
+	Module   string `json:"module,omitempty"`
+	Observed any    `json:"observed,omitempty"`
+	Expected any    `json:"expected,omitempty"`
+	Error    string `json:"error,omitempty"`
+	Files    any    `json:"files,omitempty"`
+}
+
+type counters struct {
+	workspaces, depsExact, depsWithTransitive, depsNonEmpty, cycleDemanded, cycleNotDemandedReachesCycle atomic.Int64
+	dagExact, dagCycle                                                                                   atomic.Int64
+	precedence, newestCommit                                                                             atomic.Int64
+	images, imageImportFiles, imageNonTargetModuleFiles, lsfiles, lsWithWKT                              atomic.Int64
+	dupDepsDemands, dupImageDemands, dupNoDemand                                                         atomic.Int64
+	missDepsDemands, missImageDemands                                                                    atomic.Int64
+	filtered                                                                                             atomic.Int64
+}
+
+type checker struct {
+	r *evid.Run
+	c counters
+}
+
+func fromEnum(g enum.Digraph) Graph { return Graph{N: g.N, Adj: g.Adj} }
+
+func allKinds(n int, alphabet []Kind) [][]Kind {
+	var out [][]Kind
+	dims := make([]int, n)
+	for i := range dims {
+		dims[i] = len(alphabet)
+	}
+	enum.Product(dims, func(idx []int) bool {
+		ks := make([]Kind, n)
+		for i, x := range idx {
+			ks[i] = alphabet[x]
+		}
+		out = append(out, ks)
+		return true
+	})
+	return out
+}
+
+func (s Spec) targets() []Target {
+	ts := []Target{{Kind: "all"}}
+	for _, i := range s.locals() {
+		ts = append(ts, Target{"dir", i}, Target{"file", i}, Target{"path", i})
+	}
+	return ts
+}
+
+type item struct {
+	g     Graph
+	kinds []Kind
+}
+
+func run(r *evid.Run) {
+	ck := &checker{r: r}
+	r.Rule("one case = (module import digraph, node kinds, v1|v2, plant, target); all digraphs on n nodes x all kind vectors that can exist x both config versions x all targets are run; a case is counted distinct non-trivial when its digraph has an edge or it carries a plant (key = spec/target)")
+	r.Assume("registry commits are self-contained and acyclic (a provider-only module imports only provider modules); kind vectors violating this are filtered and counted")
+	r.Assume("create times of two commits of one name differ (ties are C02's business)")
+	r.Assume("remote modules are served by an in-process provider (bufmoduletesting.OmniProvider per commit generation, routed by commit id); the CLI families use only modules present locally because the CLI's registry client cannot be replaced offline")
+	r.Assume("a module that merely reaches a cycle it is not on gets exact deps; the cycle error is demanded only from ModuleDeps of modules on the cycle and from ModuleSetToDAG / dep graph")
+
+	maxN := 3
+	if !r.Quick() {
+		maxN = 4
+	}
+	r.Set("max_nodes", maxN)
+
+	ck.familyGraphs(maxN)
+	ck.familyPlants(maxN)
+	ck.familyCLI()
+
+	c := &ck.c
+	r.Set("workspaces_opened", c.workspaces.Load())
+	r.Set("kind_vectors_filtered", c.filtered.Load())
+	r.Set("clause_deps_exact_sets_compared", c.depsExact.Load())
+	r.Set("clause_deps_nonempty", c.depsNonEmpty.Load())
+	r.Set("clause_isdirect_with_transitive_dep", c.depsWithTransitive.Load())
+	r.Set("clause_cycle_error_demanded_from_moduledeps", c.cycleDemanded.Load())
+	r.Set("clause_reaches_cycle_not_on_it_exact_deps", c.cycleNotDemandedReachesCycle.Load())
+	r.Set("clause_dag_exact", c.dagExact.Load())
+	r.Set("clause_dag_cycle_error_demanded", c.dagCycle.Load())
+	r.Set("clause_local_beats_pinned", c.precedence.Load())
+	r.Set("clause_newest_commit_wins", c.newestCommit.Load())
+	r.Set("clause_images_compared", c.images.Load())
+	r.Set("clause_image_files_of_nontarget_modules", c.imageNonTargetModuleFiles.Load())
+	r.Set("clause_lsfiles_compared", c.lsfiles.Load())
+	r.Set("clause_lsfiles_with_wkt", c.lsWithWKT.Load())
+	r.Set("clause_duplicate_path_demands_deps", c.dupDepsDemands.Load())
+	r.Set("clause_duplicate_path_demands_image", c.dupImageDemands.Load())
+	r.Set("clause_missing_import_demands_deps", c.missDepsDemands.Load())
+	r.Set("clause_missing_import_demands_image", c.missImageDemands.Load())
+	for name, v := range map[string]int64{
+		"deps exact": c.depsExact.Load(), "isdirect transitive": c.depsWithTransitive.Load(), "cycle": c.cycleDemanded.Load(),
+		"dag": c.dagExact.Load(), "dag cycle": c.dagCycle.Load(), "local beats pinned": c.precedence.Load(),
+		"newest commit": c.newestCommit.Load(), "images": c.images.Load(), "non-target files": c.imageNonTargetModuleFiles.Load(),
+		"ls-files": c.lsfiles.Load(), "duplicate": c.dupDepsDemands.Load() + c.dupImageDemands.Load(),
+		"missing import": c.missDepsDemands.Load() + c.missImageDemands.Load(),
+	} {
+		if v == 0 && !r.Expired() {
+			r.Incomplete("clause never exercised: " + name)
+		}
+	}
+}
+
+// ---------------------------------------------------------------------------------------------
+// family A: all digraphs x kinds x versions x two-commit variants x targets
+
+func (ck *checker) familyGraphs(maxN int) {
+	r := ck.r
+	var items []item
+	graphs := 0
+	for n := 1; n <= maxN; n++ {
+		alphabet := []Kind{KLocal, KNamed, KRemote, KBoth}
+		gs := enum.Digraphs(n, false)
+		graphs += len(gs)
+		for _, eg := range gs {
+			g := fromEnum(eg)
+			for _, ks := range allKinds(n, alphabet) {
+				if n == 4 && !kindVectorN4(ks) {
+					continue
+				}
+				items = append(items, item{g, ks})
+			}
+		}
+	}
+	r.Set("digraphs", graphs)
+	r.Set("graph_kind_items", len(items))
+	if maxN == 4 {
+		r.Set("n4_kind_vectors", "n=4 uses the kind vectors with at most one non-plain node: all-local-unnamed, all-local-named, and one node of kind remote or both among named ones")
+	}
+	ctx := context.Background()
+	r.ParallelFor(len(items), 0, func(idx int) {
+		it := items[idx]
+		base := newSpec(it.g, it.kinds, false)
+		if ok, _ := base.valid(); !ok {
+			ck.c.filtered.Add(1)
+			return
+		}
+		for _, v2 := range []bool{false, true} {
+			specs := []Spec{newSpec(it.g, it.kinds, v2)}
+			if !v2 && len(base.locals()) >= 2 {
+				for i, k := range it.kinds {
+					if k == KRemote {
+						for o := 0; o < 2; o++ {
+							s := newSpec(it.g, it.kinds, false)
+							s.TwoCommit, s.TCOrder = i, o
+							specs = append(specs, s)
+						}
+					}
+				}
+			}
+			for _, s := range specs {
+				ck.runSpec(ctx, idx, s)
+			}
+		}
+	})
+}
+
+// kindVectorN4 keeps the n=4 kind vectors with at most one non-plain node.
+func kindVectorN4(ks []Kind) bool {
+	cnt := map[Kind]int{}
+	for _, k := range ks {
+		cnt[k]++
+	}
+	if cnt[KLocal] == 4 || cnt[KNamed] == 4 {
+		return true
+	}
+	return cnt[KLocal] == 0 && cnt[KNamed] == 3
+}
+
+func hasEdge(g Graph) bool {
+	for i := range g.Adj {
+		for j := range g.Adj[i] {
+			if g.Adj[i][j] {
+				return true
+			}
+		}
+	}
+	return false
+}
+
+func (ck *checker) runSpec(ctx context.Context, idx int, s Spec) {
+	r := ck.r
+	b, err := build(ctx, s)
+	if err != nil {
+		r.Incomplete(fmt.Sprintf("harness: cannot build spec %s: %v", s.key(), err))
+		return
+	}
+	for ti, t := range s.targets() {
+		r.Eval(1)
+		if hasEdge(s.G) {
+			r.Distinct(s.key() + "/" + t.String())
+		}
+		r.SampleEvery(idx*16+ti, 7919, func() any { return Case{Spec: s, Target: t, Expected: s.expectModules(t)} })
+		ck.checkCase(ctx, b, t, wantImage(r, s, t))
+	}
+}
+
+// wantImage bounds the expensive image builds in the quick tier: every target for n <= 2; for n = 3
+// the workspace target and the file target of every local module (dir and path targets are covered by
+// the ls-files oracle, which is compared against the same reference on every case).
+func wantImage(r *evid.Run, s Spec, t Target) bool {
+	if !r.Quick() {
+		return s.G.N <= 3 || t.Kind == "all" || t.Kind == "file"
+	}
+	if s.G.N <= 2 {
+		return true
+	}
+	return t.Kind == "all" || t.Kind == "file"
+}
+
+func (ck *checker) violate(sig, what string, b *Built, t Target, c Case) {
+	c.Spec, c.Target = b.Spec, t
+	c.Files = b.Files
+	ck.r.Violate(sig, what, c)
+}
+
+func (ck *checker) checkCase(ctx context.Context, b *Built, t Target, withImage bool) {
+	s := b.Spec
+	ws, err := b.workspace(ctx, t)
+	if err != nil {
+		ck.violate("workspace/unexpected-error/"+errClass(err), "opening a well-formed workspace failed: "+err.Error(), b, t, Case{Error: err.Error()})
+		return
+	}
+	ck.c.workspaces.Add(1)
+
+	// --- module set: every node once, local beats pinned, newest commit wins, targets
+	gotMods, wantMods := observeModules(ws), s.expectModules(t)
+	if !reflect.DeepEqual(gotMods, wantMods) {
+		ck.violate(moduleSetSignature(s, gotMods, wantMods), "module set differs from the reference", b, t, Case{Observed: gotMods, Expected: wantMods})
+	}
+	for i, k := range s.Kinds {
+		if k == KBoth && pinned(s, i) {
+			ck.c.precedence.Add(1)
+		}
+	}
+	if s.TwoCommit >= 0 {
+		ck.c.newestCommit.Add(1)
+	}
+
+	// --- ModuleDeps of every module of the set
+	for i := range s.Kinds {
+		m := ws.GetModuleForOpaqueID(s.modID(i))
+		if m == nil {
+			continue // already reported by the module set oracle
+		}
+		got, err := observeDeps(m)
+		onCycle, want := s.expectDeps(i)
+		switch {
+		case onCycle:
+			ck.c.cycleDemanded.Add(1)
+			if err == nil {
+				ck.violate("deps/module-on-cycle/no-error", "ModuleDeps of a module on an import cycle returned deps instead of an error", b, t, Case{Module: s.modID(i), Observed: got})
+			} else if cls := errClass(err); cls != "cycle" {
+				ck.violate("deps/module-on-cycle/wrong-error/"+cls, "ModuleDeps of a module on an import cycle returned an error that is not a ModuleCycleError: "+err.Error(), b, t, Case{Module: s.modID(i), Error: err.Error()})
+			}
+		case err != nil:
+			ck.violate("deps/module-not-on-cycle/error/"+errClass(err), "ModuleDeps failed for a module that is on no cycle: "+err.Error(), b, t, Case{Module: s.modID(i), Error: err.Error(), Expected: want})
+		default:
+			ck.c.depsExact.Add(1)
+			if len(want) > 0 {
+				ck.c.depsNonEmpty.Add(1)
+			}
+			for _, d := range want {
+				if !d.Direct {
+					ck.c.depsWithTransitive.Add(1)
+					break
+				}
+			}
+			for j, reach := range s.G.reach(i) {
+				if reach && s.G.onCycle(j) {
+					ck.c.cycleNotDemandedReachesCycle.Add(1)
+					break
+				}
+			}
+			if !reflect.DeepEqual(got, want) {
+				ck.violate(depsSignature(got, want), "ModuleDeps differs from reachable-minus-self / first-hop", b, t, Case{Module: s.modID(i), Observed: got, Expected: want})
+			}
+		}
+	}
+
+	// --- ModuleSetToDAG
+	gotDAG, err := observeDAG(ws)
+	dagCycle, wantDAG := s.expectDAG(t)
+	switch {
+	case dagCycle:
+		ck.c.dagCycle.Add(1)
+		if err == nil {
+			ck.violate("dag/cycle-in-closure/no-error", "ModuleSetToDAG succeeded although a module on a cycle is in the closure of the targets", b, t, Case{Observed: gotDAG})
+		} else if cls := errClass(err); cls != "cycle" {
+			ck.violate("dag/cycle-in-closure/wrong-error/"+cls, "ModuleSetToDAG: "+err.Error(), b, t, Case{Error: err.Error()})
+		}
+	case err != nil:
+		ck.violate("dag/acyclic-closure/error/"+errClass(err), "ModuleSetToDAG failed: "+err.Error(), b, t, Case{Error: err.Error(), Expected: wantDAG})
+	default:
+		ck.c.dagExact.Add(1)
+		if !reflect.DeepEqual(gotDAG.Nodes, wantDAG.Nodes) {
+			ck.violate("dag/wrong-nodes", "ModuleSetToDAG node set differs from targets plus reachable", b, t, Case{Observed: gotDAG, Expected: wantDAG})
+		} else if !reflect.DeepEqual(gotDAG.Edges, wantDAG.Edges) {
+			ck.violate("dag/wrong-edges", "ModuleSetToDAG edge set differs from the import edges", b, t, Case{Observed: gotDAG, Expected: wantDAG})
+		}
+	}
+
+	// --- ls-files (cheap, every case) and image (bounded)
+	wantImg := s.expectImage(t)
+	wantLs := make([]RefFile, len(wantImg))
+	hasWKT := false
+	for i, f := range wantImg {
+		wantLs[i] = RefFile{Path: f.Path, IsImport: f.IsImport}
+		hasWKT = hasWKT || f.Path == wktPath
+	}
+	gotLs, err := observeLsFiles(ctx, ws)
+	if err != nil {
+		ck.violate("lsfiles/error/"+errClass(err), "ls-files computation failed on a well-formed workspace: "+err.Error(), b, t, Case{Error: err.Error()})
+	} else {
+		ck.c.lsfiles.Add(1)
+		if hasWKT {
+			ck.c.lsWithWKT.Add(1)
+		}
+		if !reflect.DeepEqual(gotLs, wantLs) {
+			ck.violate(fileListSignature("lsfiles", refPaths(gotLs), refPaths(wantLs)), "ls-files --include-imports list differs from the files the image must contain", b, t, Case{Observed: gotLs, Expected: wantLs})
+		}
+	}
+	if !withImage {
+		return
+	}
+	gotImg, err := observeImage(ctx, ws)
+	if err != nil {
+		ck.violate("image/error/"+errClass(err), "building the image of a well-formed workspace failed: "+err.Error(), b, t, Case{Error: err.Error()})
+		return
+	}
+	ck.c.images.Add(1)
+	targets := map[string]bool{}
+	for _, i := range s.targetNodes(t) {
+		targets[fmt.Sprintf("p%d/", i)] = true
+	}
+	for _, f := range wantImg {
+		if f.Path != wktPath && !targets[f.Path[:len(f.Path)-len("a.proto")]] {
+			ck.c.imageNonTargetModuleFiles.Add(1)
+		}
+	}
+	if !reflect.DeepEqual(gotImg, wantImg) {
+		sig := fileListSignature("image", imgPaths(gotImg), imgPaths(wantImg))
+		if sig == "image/import-flags-differ" || sig == "image/same-files" {
+			// distinguish flags from attribution
+			flagsEqual := true
+			for i := range gotImg {
+				if gotImg[i].IsImport != wantImg[i].IsImport {
+					flagsEqual = false
+				}
+			}
+			if flagsEqual {
+				sig = "image/module-attribution-differs"
+			} else {
+				sig = "image/import-flags-differ"
+			}
+		}
+		ck.violate(sig, "image differs from target files + import closure (non-target files only as imports)", b, t, Case{Observed: gotImg, Expected: wantImg})
+	}
+	// ls-files == image file list, directly
+	if gotLs != nil && !reflect.DeepEqual(refPaths(gotLs), imgPaths(gotImg)) {
+		ck.violate("lsfiles-vs-image/differ", "ls-files --include-imports and the built image disagree", b, t, Case{Observed: gotLs, Expected: gotImg})
+	}
+}
+
+// pinned reports whether some buf.lock of the workspace pins node i.
+func pinned(s Spec, i int) bool {
+	if s.V2 {
+		return true
+	}
+	return len(s.locals()) >= 2 // v1: every other local module's buf.lock pins it
+}
+
+type pathFlag struct {
+	Path     string
+	IsImport bool
+}
+
+func refPaths(fs []RefFile) []pathFlag {
+	out := make([]pathFlag, len(fs))
+	for i, f := range fs {
+		out[i] = pathFlag{f.Path, f.IsImport}
+	}
+	return out
+}
+
+func imgPaths(fs []ImgFile) []pathFlag {
+	out := make([]pathFlag, len(fs))
+	for i, f := range fs {
+		out[i] = pathFlag{f.Path, f.IsImport}
+	}
+	return out
+}
+
+func fileListSignature(prefix string, got, want []pathFlag) string {
+	gs, ws := map[string]bool{}, map[string]bool{}
+	for _, f := range got {
+		gs[f.Path] = true
+	}
+	for _, f := range want {
+		ws[f.Path] = true
+	}
+	missing, extra := false, false
+	for p := range ws {
+		if !gs[p] {
+			missing = true
+		}
+	}
+	for p := range gs {
+		if !ws[p] {
+			extra = true
+		}
+	}
+	switch {
+	case missing && extra:
+		return prefix + "/files-missing-and-extra"
+	case missing:
+		return prefix + "/files-missing"
+	case extra:
+		return prefix + "/files-extra"
+	}
+	if !reflect.DeepEqual(got, want) {
+		return prefix + "/import-flags-differ"
+	}
+	return prefix + "/same-files"
+}
+
+func moduleSetSignature(s Spec, got, want []ModObs) string {
+	gm := map[string]ModObs{}
+	for _, m := range got {
+		gm[m.ID] = m
+	}
+	if len(got) != len(want) {
+		return "moduleset/wrong-module-count"
+	}
+	for i, k := range s.Kinds {
+		m, ok := gm[s.modID(i)]
+		if !ok {
+			return "moduleset/module-missing/" + k.String()
+		}
+		if k == KBoth && (!m.Local || m.Commit != "") {
+			return "moduleset/precedence/pinned-commit-chosen-over-local-module"
+		}
+		if k == KRemote && i == s.TwoCommit && m.Commit == commitString(commitID(i, true)) {
+			return "moduleset/precedence/older-commit-chosen"
+		}
+	}
+	for i := range want {
+		if got[i].ID == want[i].ID && got[i].Target != want[i].Target {
+			return "moduleset/wrong-target-flag"
+		}
+	}
+	return "moduleset/other"
+}
+
+func depsSignature(got, want []RefDep) string {
+	if len(got) != len(want) {
+		if len(got) < len(want) {
+			return "deps/dep-missing"
+		}
+		return "deps/dep-extra"
+	}
+	for i := range got {
+		if got[i].ID != want[i].ID {
+			return "deps/wrong-set"
+		}
+	}
+	for i := range got {
+		if got[i].Direct != want[i].Direct {
+			if got[i].Direct {
+				return "deps/transitive-flagged-direct"
+			}
+			return "deps/direct-flagged-transitive"
+		}
+	}
+	return "deps/other"
+}
